@@ -6,13 +6,18 @@
    fuel and every step budget >= k: no budget outcome, no error outcome, no dependence on fuel.  This covers
    loops whose body can match the empty string (the empty-iteration check of run_loop is what the proof of
    loop_dec uses), greedy and lazy, any min/max, forward and inside lookbehind, nested lookarounds.
-   Not proved: the same statement for the backtracking model (Model/BT.v) — tied to the implementation and
-   compared with the PikeVM step counts by the correspondence check only; and that the IR semantics is
-   defined for some fuel (it is evaluated, not proved total). *)
+   The same is proved for the backtracking model (Model/BT.v, bt_search with the trivial prefilter) for every
+   node kind except Loop1CharBody; there the undo log is shown to restore captures, stack and loop data after
+   every failed exploration (chain / Qback in Proofs/BTCorrect.v), which bounds the backtrack store by the
+   ordered search itself.
+   Not proved: Loop1CharBody in the backtracker (run_scm_loop; compared with the PikeVM step counts by the
+   correspondence check only); and that the IR semantics is defined for some fuel (it is evaluated, not proved
+   total). *)
 From RV Require Import Base.
 From RV.Model Require Import Utf8 Indexer CodePointSet Insn IR Optimizer Unfold Emit Pike BT Exec Fold.
 From RV.Spec Require Import IRSem.
-From RV.Proofs Require Import PikeDen PikeCorrect PikeTop.
+From RV.Spec Require Import IRShape.
+From RV.Proofs Require Import PikeDen PikeCorrect PikeTop BTDen BTCorrect BTTop.
 From RV.Gen Require Import FoldTables.
 
 (* a derivation of the relational PikeVM semantics bounds the executable run: exact tick count, any larger fuel/budget *)
@@ -32,13 +37,30 @@ Theorem c05_pikevm_search_terminates : forall ix h utf16 unicode ml n body prog 
     pk_search ix prog h budget pfuel tries (pk_init_state prog p) n = (result_of ix h r, n + k).
 Proof. exact pike_emit_correct. Qed.
 
+Theorem c05_backtracker_derivation_bounds_run : forall ix prog h fwd c o,
+  BDen ix prog h fwd c o ->
+  exists f0 k, forall fuel n budget, (f0 <= fuel)%nat -> n + k <= budget ->
+    bt_run ix prog h budget fuel fwd c n = (o, n + k).
+Proof. exact bden_bt_run. Qed.
+
+Theorem c05_backtracker_search_terminates : forall ix h utf16 unicode ml n body prog names fuel tries p r,
+  (forall fwd p c p', cnext ix fwd h p = Ok (Some (c, p')) -> ix_elem_of_u32 ix c = true) ->
+  walk_ok ix h tries p = true ->
+  top_shape n body ->
+  emit utf16 unicode ml n = Ok (prog, names) ->
+  bt_wf (p_groups prog) (NCat body) = true ->
+  ir_search ix unicode utf16 h fuel (NCat body) (p_groups prog) tries p = Some r ->
+  exists f0 k st', forall pfuel n budget, (f0 <= pfuel)%nat -> n + k <= budget ->
+    bt_search ix prog h budget pfuel (fun _ => true) tries (bt_init prog) p n = (bt_result_of ix h r st', n + k).
+Proof. exact bt_emit_correct. Qed.
+
 (* Non-vacuity: a star of a star of 'a', then 'b' — a nested loop whose body can match the empty string — on "aab" and on "aac":
    the hypotheses hold (emit succeeds, the IR is well-formed, the IR semantics is defined). *)
 Definition c05_body : list node :=
   [NLoop (NLoop (NChar 97) 0 None true 0 0) 0 None true 0 0; NChar 98].
 Example c05_example_hypotheses :
   (exists prog names, emit false false false (NCat (c05_body ++ [NGoal])) = Ok (prog, names) /\ p_groups prog = 0%nat) /\
-  ir_wf (NCat c05_body) = true /\
+  ir_wf (NCat c05_body) = true /\ bt_wf 0 (NCat c05_body) = true /\
   ir_search (utf8_indexer fold_code_point) false false [97; 97; 98] 50 (NCat c05_body) 0 5 0 = Some (Some (0, 3, []))%nat /\
   ir_search (utf8_indexer fold_code_point) false false [97; 97; 99] 50 (NCat c05_body) 0 5 0 = Some None.
 Proof. repeat split; try (vm_compute; reflexivity). eexists; eexists; split; vm_compute; reflexivity. Qed.
